@@ -134,6 +134,20 @@ def main(run):
         run.count('base_types')
         if not adt or [f['ty'] for f in adt['variants'][0]['fields']] not in (['[u8]'], ['str']):
             run.violation(f'base|{ty}', f'{ty} is no longer a plain text newtype: a shared reference to it may not be read-only')
+    # the merge branch builds its result with symbolic_append: its dispatch ("." nothing, ".." pop, other push) and its loop / tail rule
+    # (every segment in order; a trailing "/" exactly after a final dot segment on a non-empty path) are this property's too
+    from .. import symstep
+    probs, sst = symstep.analyse_push(P)
+    run.cov['symbolic_push_returns'] = sst.get('returns', 0)
+    sb = P.bodies.get(symstep.FN)
+    for pr in probs:
+        run.violation(f'merge|symbolic_push|{pr[:80]}', f'{P.where(sb) if sb else "path_mut.rs"} PathMutImpl::symbolic_push (the step of the merge): {pr}')
+    probs, ast = symstep.analyse_append(P)
+    run.cov['symbolic_append_paths'] = ast.get('iteration_paths', 0) + ast.get('tail_paths', 0)
+    ab = P.bodies.get(symstep.APPEND)
+    for pr in probs:
+        run.violation(f'merge|symbolic_append|{pr[:80]}', f'{P.where(ab) if ab else "path_mut.rs"} PathMutImpl::symbolic_append (the merge of RFC 3986 5.2.3): {pr}')
+    run.floor('symbolic_append_paths', 3, 'paths of symbolic_append checked')
     npairs = sibling.check(run, P, 'C06', only=lambda n: re.search(r'resolve', n) is not None)
     run.floor('entry_points', 6, 'resolution entry points')
     n = run.cov.get('entry_points', 0) + run.cov.get('implementors', 0) + run.cov.get('resolve_paths', 0) + npairs
